@@ -59,22 +59,46 @@ T_Events ==
      /\ G("C19", "WireBytesExact", Len(E.att) <= Len(buf) /\ E.att = SubSeq(buf, 1, Len(E.att)))
      /\ \E who \in Writers : WriteSome(who, Len(E.att), ~Failed, Len(E.b))
   \/ /\ IsEvent("cclose")
-     /\ \/ \E s \in Senders : SClose(s)
-        \/ CClose(~Failed)
-        \/ RFailClose
+     /\ IF E.first
+        THEN \/ \E s \in Senders : SClose(s)        \* the call that actually closes the carrier
+             \/ CClose(~Failed)
+             \/ RFailClose
+        ELSE \/ CClose(~Failed)                     \* Close() is a step of its own (its error matters)
+             \/ NoChange                            \* a repeated carrier.Close() on an error path: no effect, not attributed
   \/ IsEvent("cread") /\ RRead(E.n, Failed)
   \/ IsEvent("cdeadline") /\ (IF rpc = "called" THEN RDropWhen(TRUE) ELSE NoChange)
   \/ IsEvent("recv.pkt") /\ G("C19", "ReceiverOrder", E.k = rdel) /\ NoChange
   \/ IsEvent("settle") /\ G("C19", "NoCallHangs", E.stuck = <<>>) /\ NoChange
   \/ IsEvent("end") /\ PrintT(<<"ACCEPTED", E.tr>>) /\ NoChange
 
+RFailCloseAgain == carrier = "closed" /\ RFailClose
+\* Sends that fail without touching the carrier (pending or sticky error) are interchangeable: they are taken in the order
+\* of their returns (earliest deadline first - a canonical choice that loses no acceptable trace and keeps the search linear)
+RECURSIVE CanonSender(_)
+CanonSender(j) == IF j > Len(Trace) \/ Trace[j].tr # E.tr THEN "none"
+                  ELSE IF Trace[j].ev = "api.ret" /\ Trace[j].op = "send" /\ spc[Trace[j].g] = "called" THEN Trace[j].g ELSE CanonSender(j + 1)
+Canonical(s) == (werr \/ berr) => s = CanonSender(l)
+\* Partial-order reduction: steps that are invisible and only finish what their thread has begun under a lock it holds
+\* (copying into the buffer, leaving the writer, the unobservable repeated close) are left-movers: they are taken at once,
+\* before anything else, one thread at a time.  Every acceptable trace stays acceptable; the search stays linear.
+EagerSenders == {s \in Senders : spc[s] \in {"copy", "half"} \/ (spc[s] = "closing" /\ carrier = "closed")}
+EagerOther == (cpc = "flush" /\ (berr \/ buf = <<>>)) \/ (tpc = "flush" /\ (berr \/ buf = <<>>)) \/ (rpc = "called" /\ rerrp /\ carrier = "closed")
+EagerEnabled == EagerSenders # {} \/ EagerOther
+T_Eager ==
+  /\ l <= Len(Trace) /\ TLCSet(2, l) /\ UNCHANGED l
+  /\ IF EagerSenders # {}
+     THEN LET s == CHOOSE x \in EagerSenders : TRUE IN Append1(s) \/ Append2(s) \/ SClose(s)
+     ELSE IF cpc = "flush" /\ (berr \/ buf = <<>>) THEN CFlushEnd
+     ELSE IF tpc = "flush" /\ (berr \/ buf = <<>>) THEN TimerEnd
+     ELSE RFailCloseAgain
 T_Silent ==
   /\ l <= Len(Trace) /\ TLCSet(2, l) /\ UNCHANGED l
-  /\ \/ \E s \in Senders : Begin(s) \/ Append1(s) \/ Append2(s) \/ WriteEnd(s)
-     \/ TimerQuiet \/ TimerBegin \/ TimerEnd \/ CBegin \/ CFlushEnd \/ RGot \/ RDrop
+  /\ \/ \E s \in Senders : (Canonical(s) /\ Begin(s)) \/ WriteEnd(s)
+     \/ TimerQuiet \/ TimerBegin \/ CBegin \/ RGot \/ RDrop
+
 
 T_Skip == l <= Len(Trace) /\ E.ev # "config" /\ l' = EndIdx[E.tr] + 1 /\ ResetAll(FALSE, <<>>)
-TNext == T_Config \/ T_Events \/ T_Silent \/ T_Skip
+TNext == T_Config \/ (IF EagerEnabled THEN T_Eager ELSE (T_Events \/ T_Silent)) \/ T_Skip
 TSpec == TInit /\ [][TNext]_trvars
 
 ASSUME TLCSet(2, 0)
